@@ -47,13 +47,13 @@ type fullAttempt struct {
 	End   int64    `json:"end"`
 }
 type fullAction struct {
-	ID, Key                 string
-	Name, Descr, Plugin     string
-	Timeout                 int64
-	Retries                 int
-	Req                     string
-	State                   fullState
-	Attempts                []fullAttempt
+	ID, Key             string
+	Name, Descr, Plugin string
+	Timeout             int64
+	Retries             int
+	Req                 string
+	State               fullState
+	Attempts            []fullAttempt
 }
 type fullChecks struct {
 	ID, Key string
@@ -67,12 +67,12 @@ type fullSeq struct {
 	Actions              []fullAction
 }
 type fullBlock struct {
-	ID, Key, Name, Descr                string
-	Entrance, Exit                      int64
-	Conc, Tol                           int
-	State                               fullState
-	Bypass, Pre, Cont, Post, Deferred   *fullChecks
-	Seqs                                []fullSeq
+	ID, Key, Name, Descr              string
+	Entrance, Exit                    int64
+	Conc, Tol                         int
+	State                             fullState
+	Bypass, Pre, Cont, Post, Deferred *fullChecks
+	Seqs                              []fullSeq
 }
 type fullPlan struct {
 	ID, Group, Name, Descr            string
